@@ -1,36 +1,1475 @@
-//! C09 — (stub; to be implemented, see DESIGN.md section 5 and HARNESS.md)
+//! C09 — `Error::source` returns exactly the field the documented rules select.
+//!
+//! Three parts, merged into one report:
+//!  * a **stable** generated-program shard (no field is a backtrace): structs and enums whose
+//!    variants are random field layouts (0..3 named/positional fields x attribute x name x type),
+//!    generic and concrete; the oracle inside the program compares the data pointer of the
+//!    `&dyn Error` returned by `source()` with the address of every field (for `Box<dyn Error ..>`:
+//!    of the boxed value) and reports *which* field came back; the expectation is computed by an
+//!    independent three-valued model of `impl/doc/error.md` + the property statement;
+//!  * a **nightly** shard (`#![feature(error_generic_member_access)]`) for layouts where a field
+//!    is the backtrace by name, type or attribute (the derive then emits `provide()`), which is
+//!    where the two-field-tuple inference lives;
+//!  * an in-process **sweep** (engine E1) over *every* layout of the attribute/name/type-class
+//!    space: ambiguous selections (two `#[error(source)]`) must be rejected by the derive with a
+//!    diagnostic, everything else must expand without error or panic.  The sweep only decides the
+//!    derive-level accept/reject clause; which field is returned is always decided by running
+//!    compiled code.
+use super::core::*;
+use super::dm;
+use super::proggen::CaseResult;
 use super::progprop::*;
+use serde_json::{json, Value};
 
-fn build(_d: &mut Dice) -> GenCase {
-    let mut c = GenCase::new("pub fn run(o: &mut Out) { o.check(\"stub\", true); }".to_string());
-    c.nontrivial = false;
+pub const SIG_SHIFT: &str = "c09-ignore-shifts-index";
+pub const SIG_PANIC: &str = "c09-ignore-tuple-backtrace-panic";
+
+// ------------------------------------------------------------------------------------------------
+// layouts and the reference model
+
+#[derive(Clone, Copy, Debug, PartialEq, Eq)]
+pub enum At {
+    None,
+    Source,
+    NotSource,
+    Backtrace,
+    NotBacktrace,
+    Ignore,
+    BtSource,
+}
+
+pub const ALL_ATTRS: [At; 7] = [At::None, At::Source, At::NotSource, At::Backtrace, At::NotBacktrace, At::Ignore, At::BtSource];
+
+impl At {
+    pub fn text(self) -> Option<&'static str> {
+        match self {
+            At::None => None,
+            At::Source => Some("source"),
+            At::NotSource => Some("not(source)"),
+            At::Backtrace => Some("backtrace"),
+            At::NotBacktrace => Some("not(backtrace)"),
+            At::Ignore => Some("ignore"),
+            At::BtSource => Some("backtrace, source"),
+        }
+    }
+    fn label(self) -> &'static str {
+        match self {
+            At::None => "none",
+            At::Source => "source",
+            At::NotSource => "not_source",
+            At::Backtrace => "backtrace",
+            At::NotBacktrace => "not_backtrace",
+            At::Ignore => "ignore",
+            At::BtSource => "backtrace_source",
+        }
+    }
+}
+
+/// What the derive can see of a field type: an error type, a type whose last path segment is
+/// `Backtrace`, anything else.
+#[derive(Clone, Copy, Debug, PartialEq, Eq)]
+pub enum Cls {
+    Err,
+    Bt,
+    Plain,
+}
+
+#[derive(Clone, Debug)]
+pub struct Fl {
+    /// field name; empty for positional fields
+    pub name: String,
+    pub attr: At,
+    pub cls: Cls,
+}
+
+#[derive(Clone, Debug)]
+pub struct Layout {
+    pub named: bool,
+    pub fields: Vec<Fl>,
+    /// `#[error(ignore)]` on the variant / struct itself
+    pub ignored: bool,
+}
+
+#[derive(Clone, Copy, Debug, PartialEq, Eq)]
+pub enum Sel {
+    Field(usize),
+    NoSource,
+    /// the documentation and the statement do not pin the answer down: counted, not checked
+    Unspecified,
+    /// two explicit `source` attributes: must be a compile error
+    Ambiguous,
+}
+
+pub struct Model {
+    pub source: Sel,
+    pub backtrace: Option<usize>,
+    pub bt_ambiguous: bool,
+}
+
+/// The documented rules (error.md "When and how does it derive source()/provide()", "Ignoring fields"
+/// and the property statement).  Independent of `impl/src/error.rs`: positions are positions among
+/// *all* declared fields; `ignore` disqualifies a field as source and as backtrace and changes
+/// nothing else.
+pub fn model(l: &Layout) -> Model {
+    let f = &l.fields;
+    let n = f.len();
+    let explicit_src: Vec<usize> = (0..n).filter(|&i| matches!(f[i].attr, At::Source | At::BtSource)).collect();
+    let explicit_bt: Vec<usize> = (0..n).filter(|&i| matches!(f[i].attr, At::Backtrace | At::BtSource)).collect();
+    let inferred_bt: Vec<usize> = (0..n)
+        .filter(|&i| !matches!(f[i].attr, At::NotBacktrace | At::Ignore))
+        .filter(|&i| if l.named { f[i].name == "backtrace" } else { f[i].cls == Cls::Bt })
+        .collect();
+    let (mut backtrace, bt_ambiguous) = match explicit_bt.len() {
+        0 => match inferred_bt.len() {
+            0 => (None, false),
+            1 => (Some(inferred_bt[0]), false),
+            _ => (None, true),
+        },
+        1 => (Some(explicit_bt[0]), false),
+        _ => (None, true),
+    };
+    let source = if explicit_src.len() >= 2 {
+        Sel::Ambiguous
+    } else if l.ignored {
+        Sel::NoSource
+    } else if explicit_src.len() == 1 {
+        Sel::Field(explicit_src[0])
+    } else if l.named {
+        match f.iter().position(|x| x.name == "source") {
+            None => Sel::NoSource,
+            Some(c) => match f[c].attr {
+                At::NotSource | At::Ignore => Sel::NoSource,
+                _ => Sel::Field(c),
+            },
+        }
+    } else {
+        match n {
+            0 => Sel::NoSource,
+            1 => {
+                let x = &f[0];
+                match x.attr {
+                    At::NotSource | At::Ignore => Sel::NoSource,
+                    // the sole field is explicitly the backtrace: "backtrace taken from the source" is only
+                    // documented for a field that is the source by another rule
+                    At::Backtrace => {
+                        if x.cls == Cls::Bt {
+                            Sel::NoSource
+                        } else {
+                            Sel::Unspecified
+                        }
+                    }
+                    At::NotBacktrace => {
+                        if x.cls == Cls::Bt {
+                            Sel::Unspecified
+                        } else {
+                            Sel::Field(0)
+                        }
+                    }
+                    _ => {
+                        if x.cls == Cls::Bt {
+                            Sel::NoSource
+                        } else {
+                            Sel::Field(0)
+                        }
+                    }
+                }
+            }
+            2 => {
+                if f.iter().any(|x| x.cls == Cls::Bt && x.attr == At::Ignore) {
+                    // `ignore` on the backtrace of a two-field tuple: "ignored for detecting the backtrace"
+                    // (then nothing is inferred) vs "ignore never changes which remaining field is returned"
+                    Sel::Unspecified
+                } else {
+                    match backtrace {
+                        Some(b) => {
+                            let o = 1 - b;
+                            match f[o].attr {
+                                At::NotSource | At::Ignore => Sel::NoSource,
+                                _ => Sel::Field(o),
+                            }
+                        }
+                        None => Sel::NoSource,
+                    }
+                }
+            }
+            _ => Sel::NoSource,
+        }
+    };
+    if l.ignored {
+        backtrace = None;
+    }
+    Model { source, backtrace, bt_ambiguous }
+}
+
+/// Number of fields any reading (documentation or implementation) could take for a backtrace.
+fn bt_candidates(l: &Layout) -> usize {
+    l.fields
+        .iter()
+        .filter(|x| {
+            matches!(x.attr, At::Backtrace | At::BtSource)
+                || (!matches!(x.attr, At::NotBacktrace | At::Ignore) && (x.name == "backtrace" || x.cls == Cls::Bt))
+        })
+        .count()
+}
+
+/// Is the layout inside the input domain of the compiled shards: well-typed under the documented
+/// selection, no backtrace ambiguity, and (stable shard) nothing that makes the derive emit `provide()`.
+fn valid(l: &Layout, m: &Model, allow_bt: bool) -> bool {
+    if m.bt_ambiguous || m.source == Sel::Ambiguous {
+        return false;
+    }
+    let cands = bt_candidates(l);
+    if cands > 1 {
+        return false;
+    }
+    if !allow_bt && cands > 0 {
+        return false;
+    }
+    if cands == 1 && m.backtrace.is_none() && !l.ignored {
+        // e.g. a named field `x: Backtrace`: the implementation infers it, the documentation does not say so
+        return false;
+    }
+    match m.source {
+        Sel::Field(i) => {
+            if l.fields[i].cls != Cls::Err {
+                return false;
+            }
+        }
+        Sel::Unspecified => {
+            // only the form both readings of which type-check: (error, #[error(ignore)] Backtrace)
+            if l.named || l.fields.len() != 2 {
+                return false;
+            }
+            if l.fields.iter().any(|x| x.cls == Cls::Plain || matches!(x.attr, At::Backtrace | At::BtSource)) {
+                return false;
+            }
+            if l.fields.iter().filter(|x| x.cls == Cls::Bt).count() != 1 {
+                return false;
+            }
+        }
+        _ => {}
+    }
+    if let Some(b) = m.backtrace {
+        if m.source != Sel::Field(b) && l.fields[b].cls != Cls::Bt {
+            return false;
+        }
+    }
+    true
+}
+
+/// The recorded defect (selected index is a position among *enabled* fields but is used as a position
+/// among *all* fields): position the defect makes an enum variant bind / a bound refer to.
+fn shifted(l: &Layout, i: usize) -> usize {
+    l.fields[..i].iter().filter(|x| x.attr != At::Ignore).count()
+}
+
+/// Layouts on which the same defect makes `infer_source_field` index out of bounds.
+fn predicts_panic(l: &Layout) -> bool {
+    if l.named || l.ignored || l.fields.len() != 2 {
+        return false;
+    }
+    let f = &l.fields;
+    if f.iter().any(|x| matches!(x.attr, At::Source | At::BtSource)) {
+        return false;
+    }
+    let ign: Vec<usize> = (0..2).filter(|&i| f[i].attr == At::Ignore).collect();
+    if ign.len() != 1 {
+        return false;
+    }
+    let o = &f[1 - ign[0]];
+    o.attr == At::Backtrace || (o.cls == Cls::Bt && !matches!(o.attr, At::NotBacktrace))
+}
+
+// ------------------------------------------------------------------------------------------------
+// generation
+
+const OTHER: [&str; 3] = ["a", "b", "c"];
+
+fn draw_layout_raw(d: &mut Dice, allow_bt: bool) -> Layout {
+    let named = d.chance(50);
+    let n = d.weighted(&[1, 3, 6, 5]);
+    let mut fields = vec![];
+    let mut have_source = false;
+    let mut have_bt_name = false;
+    for i in 0..n {
+        let name = if named {
+            if !have_source && d.chance(38) {
+                have_source = true;
+                "source".to_string()
+            } else if !have_bt_name && d.chance(if allow_bt { 25 } else { 4 }) {
+                have_bt_name = true;
+                "backtrace".to_string()
+            } else {
+                OTHER[i].to_string()
+            }
+        } else {
+            String::new()
+        };
+        let attr = [At::None, At::Ignore, At::Source, At::NotSource, At::NotBacktrace, At::Backtrace, At::BtSource]
+            [d.weighted(&[7, 5, 3, 2, 1, if allow_bt { 2 } else { 0 }, if allow_bt { 1 } else { 0 }])];
+        let cls = [Cls::Err, Cls::Plain, Cls::Bt][d.weighted(&[7, 3, if allow_bt { 3 } else { 1 }])];
+        fields.push(Fl { name, attr, cls });
+    }
+    let ignored = d.chance(7);
+    Layout { named, fields, ignored }
+}
+
+/// Makes the drawn layout well-typed where that is possible without touching names and attributes.
+fn repair(l: &mut Layout) {
+    for _ in 0..4 {
+        let m = model(l);
+        let mut changed = false;
+        if let Sel::Field(i) = m.source {
+            if l.fields[i].cls != Cls::Err {
+                l.fields[i].cls = Cls::Err;
+                changed = true;
+            }
+        }
+        if !changed {
+            if let Some(b) = m.backtrace {
+                if m.source != Sel::Field(b) && l.fields[b].cls != Cls::Bt {
+                    l.fields[b].cls = Cls::Bt;
+                    changed = true;
+                }
+            }
+        }
+        if !changed {
+            break;
+        }
+    }
+}
+
+fn has_backtrace(l: &Layout) -> bool {
+    !l.ignored && model(l).backtrace.is_some()
+}
+
+/// Draws a layout of the positive domain. `want_bt`: the layout must have a backtrace (nightly shard).
+fn draw_layout(d: &mut Dice, allow_bt: bool, want_bt: bool, is_enum: bool, excluded: &mut u64) -> Layout {
+    for _ in 0..12 {
+        let mut l = if d.chance(30) { steer_ignore_before(d, allow_bt) } else { draw_layout_raw(d, allow_bt) };
+        // struct-level `ignore` is only grounded in the repository's tests for structs without field attributes
+        if !is_enum && l.ignored && (l.fields.is_empty() || l.fields.iter().any(|f| f.attr != At::None)) {
+            l.ignored = false;
+        }
+        repair(&mut l);
+        let m = model(&l);
+        if valid(&l, &m, allow_bt) && (!want_bt || has_backtrace(&l)) {
+            return l;
+        }
+        *excluded += 1;
+    }
+    if want_bt {
+        Layout {
+            named: false,
+            fields: vec![Fl { name: String::new(), attr: At::None, cls: Cls::Err }, Fl { name: String::new(), attr: At::None, cls: Cls::Bt }],
+            ignored: false,
+        }
+    } else {
+        Layout { named: false, fields: vec![Fl { name: String::new(), attr: At::None, cls: Cls::Err }], ignored: false }
+    }
+}
+
+/// Steered layouts: an ignored field declared before the field the rules select (the class the
+/// property's `why_tests_cant` names).
+fn steer_ignore_before(d: &mut Dice, allow_bt: bool) -> Layout {
+    let named = d.chance(50);
+    let n = d.range(2, 3);
+    let sel = d.range(1, n - 1);
+    let explicit = !named || d.chance(50);
+    let mut fields = vec![];
+    let mut have_bt = false;
+    for i in 0..n {
+        let name = if !named {
+            String::new()
+        } else if i == sel && !explicit {
+            "source".to_string()
+        } else {
+            OTHER[i].to_string()
+        };
+        let (attr, cls) = if i == sel {
+            (if explicit { At::Source } else { [At::None, At::NotBacktrace][d.weighted(&[5, 1])] }, Cls::Err)
+        } else if i < sel && (i == 0 || d.chance(50)) {
+            (At::Ignore, [Cls::Err, Cls::Plain][d.weighted(&[6, 1])])
+        } else if allow_bt && !have_bt && d.chance(40) {
+            have_bt = true;
+            (if d.chance(30) { At::Backtrace } else { At::None }, Cls::Bt)
+        } else {
+            ([At::None, At::Ignore, At::NotSource, At::NotBacktrace][d.weighted(&[4, 2, 2, 1])], [Cls::Err, Cls::Plain][d.weighted(&[3, 2])])
+        };
+        let name = if cls == Cls::Bt && named { "backtrace".to_string() } else { name };
+        fields.push(Fl { name, attr, cls });
+    }
+    Layout { named, fields, ignored: false }
+}
+
+#[derive(Clone, Debug)]
+struct FieldTy {
+    decl: String,
+    val: String,
+    /// the error is the boxed value, not the field itself
+    boxed_dyn: bool,
+}
+
+#[derive(Clone, Copy, Default)]
+struct GenUse {
+    e: bool,
+    p: bool,
+    n: bool,
+    a: bool,
+}
+
+const BOX_DYN: [&str; 3] = ["Box<dyn StdError + Send + Sync>", "Box<dyn StdError + Send + 'static>", "Box<dyn StdError>"];
+
+fn field_ty(d: &mut Dice, l: &Layout, m: &Model, vi: usize, j: usize, generic: bool, gu: &mut GenUse) -> FieldTy {
+    let x = &l.fields[j];
+    let k = 1 + 4 * vi + j;
+    let v = 100 + 10 * vi + j;
+    let selected = m.source == Sel::Field(j);
+    // `provide()` (emitted when the layout has a backtrace) forwards to the source through `Error::provide`,
+    // which a `Box<dyn Error>` does not offer: boxed trait objects only where no backtrace exists
+    let no_provide = m.backtrace.is_none() && bt_candidates(l) == 0;
+    match x.cls {
+        Cls::Err => {
+            let w = if selected {
+                [6, if no_provide { 3 } else { 0 }, 1, if generic { 6 } else { 0 }, 0]
+            } else {
+                [6, if no_provide { 1 } else { 0 }, 0, 0, if generic { 2 } else { 0 }]
+            };
+            match d.weighted(&w) {
+                0 => FieldTy { decl: format!("Er<{k}>"), val: format!("Er({v})"), boxed_dyn: false },
+                1 => {
+                    let t = BOX_DYN[d.pick(3)];
+                    FieldTy { decl: t.to_string(), val: format!("Box::new(Er::<{}>({v}))", 60 + k), boxed_dyn: true }
+                }
+                2 => FieldTy { decl: format!("Box<Er<{k}>>"), val: format!("Box::new(Er({v}))"), boxed_dyn: false },
+                3 => {
+                    gu.e = true;
+                    FieldTy { decl: "E".into(), val: format!("Er({v})"), boxed_dyn: false }
+                }
+                _ => {
+                    gu.n = true;
+                    FieldTy { decl: "Er<N>".into(), val: format!("Er({v})"), boxed_dyn: false }
+                }
+            }
+        }
+        Cls::Bt => FieldTy {
+            decl: if d.chance(30) { "std::backtrace::Backtrace".into() } else { "Backtrace".into() },
+            val: "Backtrace::disabled()".into(),
+            boxed_dyn: false,
+        },
+        Cls::Plain => match d.weighted(&[4, 2, 1, if generic { 4 } else { 0 }, if generic { 1 } else { 0 }]) {
+            0 => FieldTy { decl: "u64".into(), val: format!("{v}u64"), boxed_dyn: false },
+            1 => FieldTy { decl: "NotErr".into(), val: format!("NotErr({v})"), boxed_dyn: false },
+            2 => FieldTy { decl: "String".into(), val: format!("String::from(\"s{v}\")"), boxed_dyn: false },
+            3 => {
+                gu.p = true;
+                FieldTy { decl: "P".into(), val: format!("NotErr({v})"), boxed_dyn: false }
+            }
+            _ => {
+                gu.a = true;
+                FieldTy { decl: "&'a u64".into(), val: "&77u64".into(), boxed_dyn: false }
+            }
+        },
+    }
+}
+
+struct Variant {
+    name: String,
+    layout: Layout,
+    tys: Vec<FieldTy>,
+    /// brace / paren / bare form of a field-less variant or struct
+    unit_form: usize,
+}
+
+fn render_fields(v: &Variant, with_attrs: bool) -> String {
+    let l = &v.layout;
+    if l.fields.is_empty() {
+        return ["", " {}", "()"][v.unit_form].to_string();
+    }
+    let parts: Vec<String> = l
+        .fields
+        .iter()
+        .zip(&v.tys)
+        .map(|(f, t)| {
+            let a = match (with_attrs, f.attr.text()) {
+                (true, Some(a)) => format!("#[error({a})] "),
+                _ => String::new(),
+            };
+            if l.named {
+                format!("{a}{}: {}", f.name, t.decl)
+            } else {
+                format!("{a}{}", t.decl)
+            }
+        })
+        .collect();
+    if l.named {
+        format!(" {{ {} }}", parts.join(", "))
+    } else {
+        format!("({})", parts.join(", "))
+    }
+}
+
+fn render_ctor(v: &Variant) -> String {
+    let l = &v.layout;
+    if l.fields.is_empty() {
+        return ["", " {}", "()"][v.unit_form].to_string();
+    }
+    if l.named {
+        format!(" {{ {} }}", l.fields.iter().zip(&v.tys).map(|(f, t)| format!("{}: {}", f.name, t.val)).collect::<Vec<_>>().join(", "))
+    } else {
+        format!("({})", v.tys.iter().map(|t| t.val.clone()).collect::<Vec<_>>().join(", "))
+    }
+}
+
+fn render_pat(v: &Variant) -> String {
+    let l = &v.layout;
+    if l.fields.is_empty() {
+        return ["", " {}", "()"][v.unit_form].to_string();
+    }
+    if l.named {
+        format!(" {{ {} }}", l.fields.iter().enumerate().map(|(j, f)| format!("{}: f{j}", f.name)).collect::<Vec<_>>().join(", "))
+    } else {
+        format!("({})", (0..l.fields.len()).map(|j| format!("f{j}")).collect::<Vec<_>>().join(", "))
+    }
+}
+
+fn sel_text(s: Sel) -> String {
+    match s {
+        Sel::Field(i) => format!("Some(field {i})"),
+        Sel::NoSource => "None".into(),
+        Sel::Unspecified => "<unspecified>".into(),
+        Sel::Ambiguous => "<compile error>".into(),
+    }
+}
+
+struct TypeDef {
+    /// type name (`Z`, `Z0` for the metamorphic twin)
+    name: String,
+    is_enum: bool,
+    struct_ignored: bool,
+    variants: Vec<Variant>,
+}
+
+/// (declaration generics, impl/type arguments, instantiation arguments)
+fn generics_text(gu: GenUse, order: usize) -> (String, String, String) {
+    let mut decl = vec![];
+    let mut args = vec![];
+    let mut inst = vec![];
+    if gu.a {
+        decl.push("'a".to_string());
+        args.push("'a".to_string());
+        inst.push("'static".to_string());
+    }
+    let mut rest: Vec<(&str, &str, &str)> = vec![];
+    if gu.e {
+        rest.push(("E", "E", "Er<40>"));
+    }
+    if gu.p {
+        rest.push(("P", "P", "NotErr"));
+    }
+    if gu.n {
+        rest.push(("const N: usize", "N", "41"));
+    }
+    // deterministic rotation / reversal of the declaration order (consts before types is legal)
+    if !rest.is_empty() {
+        let k = order % rest.len();
+        rest.rotate_left(k);
+        if (order / 3) % 2 == 1 {
+            rest.reverse();
+        }
+    }
+    for (dcl, a, i) in rest {
+        decl.push(dcl.to_string());
+        args.push(a.to_string());
+        inst.push(i.to_string());
+    }
+    if decl.is_empty() {
+        (String::new(), String::new(), String::new())
+    } else {
+        (format!("<{}>", decl.join(", ")), format!("<{}>", args.join(", ")), format!("<{}>", inst.join(", ")))
+    }
+}
+
+fn render_type(t: &TypeDef, gens: &(String, String, String), with_derive: bool) -> String {
+    let (gd, ga, _) = gens;
+    let mut s = String::new();
+    if with_derive {
+        s.push_str("#[derive(Debug, derive_more::Error)]\n");
+    } else {
+        s.push_str("#[derive(Debug)]\n");
+    }
+    let name = &t.name;
+    if t.is_enum {
+        s.push_str(&format!("pub enum {name}{gd} {{\n"));
+        for v in &t.variants {
+            if with_derive && v.layout.ignored {
+                s.push_str("    #[error(ignore)]\n");
+            }
+            s.push_str(&format!("    {}{},\n", v.name, render_fields(v, with_derive)));
+        }
+        s.push_str("}\n");
+    } else {
+        let v = &t.variants[0];
+        if with_derive && t.struct_ignored {
+            s.push_str("#[error(ignore)]\n");
+        }
+        let body = render_fields(v, with_derive);
+        let semi = if v.layout.named && !v.layout.fields.is_empty() || body == " {}" { "" } else { ";" };
+        s.push_str(&format!("pub struct {name}{gd}{body}{semi}\n"));
+    }
+    s.push_str(&format!(
+        "impl{gd} std::fmt::Display for {name}{ga} {{ fn fmt(&self, f: &mut std::fmt::Formatter<'_>) -> std::fmt::Result {{ f.write_str(\"{name}\") }} }}\n"
+    ));
+    s
+}
+
+/// Block computing `w_<tag>`: which field `source()` returned for the value of variant `v`.
+fn render_probe(t: &TypeDef, v: &Variant, inst: &str, tag: &str) -> String {
+    let name = &t.name;
+    let path = if t.is_enum { format!("{name}::{}", v.name) } else { name.clone() };
+    let addrs: Vec<String> = v
+        .tys
+        .iter()
+        .enumerate()
+        .map(|(j, ty)| {
+            if ty.boxed_dyn {
+                format!("(\"field {j}\", ad(&**f{j})), (\"the Box of field {j} instead of the error it holds\", ad(f{j}))")
+            } else if ty.decl.starts_with("Box<") {
+                format!("(\"field {j}\", ad(f{j})), (\"the value inside the Box of field {j}\", ad(&**f{j}))")
+            } else {
+                format!("(\"field {j}\", ad(f{j}))")
+            }
+        })
+        .collect();
+    format!(
+        "    let w_{tag} = {{\n        let v: {name}{inst} = {path}{ctor};\n        let got = dp(StdError::source(&v));\n        match &v {{\n            {path}{pat} => which(got, &[{addrs}]),\n            #[allow(unreachable_patterns)]\n            _ => String::from(\"<wrong variant>\"),\n        }}\n    }};\n",
+        ctor = render_ctor(v),
+        pat = render_pat(v),
+        addrs = addrs.join(", "),
+    )
+}
+
+pub const PRELUDE: &str = r#"
+pub use std::error::Error as StdError;
+pub use std::backtrace::Backtrace;
+/// distinct, non-zero-sized error types
+pub struct Er<const K: usize>(pub u64);
+impl<const K: usize> std::fmt::Debug for Er<K> { fn fmt(&self, f: &mut std::fmt::Formatter<'_>) -> std::fmt::Result { write!(f, "Er<{}>({})", K, self.0) } }
+impl<const K: usize> std::fmt::Display for Er<K> { fn fmt(&self, f: &mut std::fmt::Formatter<'_>) -> std::fmt::Result { write!(f, "Er<{}>({})", K, self.0) } }
+impl<const K: usize> StdError for Er<K> {}
+/// implements Debug only: instantiates parameters that must not receive an `Error` bound
+#[derive(Debug, Clone)]
+pub struct NotErr(pub u64);
+pub fn dp(e: Option<&(dyn StdError + 'static)>) -> Option<usize> { e.map(|r| r as *const dyn StdError as *const () as usize) }
+pub fn ad<T: ?Sized>(r: &T) -> usize { r as *const T as *const () as usize }
+pub fn which(got: Option<usize>, addrs: &[(&str, usize)]) -> String {
+    match got {
+        None => "None".to_string(),
+        Some(p) => match addrs.iter().find(|(_, a)| *a == p) {
+            Some((tag, _)) => format!("Some({tag})"),
+            None => "Some(<an address that is no field of the value>)".to_string(),
+        },
+    }
+}
+"#;
+
+fn layout_labels(l: &Layout, m: &Model, is_enum: bool, labels: &mut Vec<String>) {
+    let mut push = |s: String| {
+        if !labels.contains(&s) {
+            labels.push(s)
+        }
+    };
+    push(format!("fields={}", l.fields.len()));
+    push(if l.named { "named".into() } else { "tuple".into() });
+    for f in &l.fields {
+        push(format!("attr={}", f.attr.label()));
+        if f.name == "source" {
+            push("name=source".into());
+        }
+        if f.name == "backtrace" {
+            push("name=backtrace".into());
+        }
+        if f.cls == Cls::Bt {
+            push("type=Backtrace".into());
+        }
+    }
+    if l.ignored {
+        push(if is_enum { "variant_ignored".into() } else { "struct_ignored".into() });
+    }
+    match m.source {
+        Sel::Field(i) => {
+            push("expect=some".into());
+            let f = &l.fields[i];
+            if matches!(f.attr, At::Source | At::BtSource) {
+                push("selected_by=attribute".into());
+                if l.fields.iter().any(|x| x.name == "source" && x.attr != At::Source && x.attr != At::BtSource) {
+                    push("explicit_overrides_name".into());
+                }
+            } else if l.named {
+                push("selected_by=name".into());
+            } else if l.fields.len() == 1 {
+                push("selected_by=sole_tuple_field".into());
+            } else {
+                push("selected_by=two_tuple_other_is_backtrace".into());
+            }
+            if l.fields[..i].iter().any(|x| x.attr == At::Ignore) {
+                push("ignored_before_selected".into());
+                if is_enum {
+                    push("enum_ignored_before_selected".into());
+                }
+            }
+            if l.fields.iter().enumerate().any(|(j, x)| j != i && x.attr == At::Ignore) {
+                push("ignore_on_other_field".into());
+            }
+            if m.backtrace == Some(i) {
+                push("backtrace_from_source".into());
+            }
+        }
+        Sel::NoSource => {
+            push("expect=none".into());
+            if l.fields.iter().any(|x| x.name == "source" && matches!(x.attr, At::NotSource | At::Ignore))
+                || (!l.named && l.fields.len() == 1 && matches!(l.fields[0].attr, At::NotSource | At::Ignore))
+                || (!l.named && l.fields.len() == 2 && m.backtrace.is_some())
+            {
+                push("candidate_disqualified".into());
+            }
+        }
+        Sel::Unspecified => push("expect=unspecified".into()),
+        Sel::Ambiguous => push("expect=compile_error".into()),
+    }
+    if m.backtrace.is_some() {
+        push("has_backtrace".into());
+    }
+}
+
+fn build_with(d: &mut Dice, nightly: bool) -> GenCase {
+    let allow_bt = nightly;
+    let mut excluded = 0u64;
+    let is_enum = d.chance(55);
+    let negative = d.chance(6);
+    let generic = d.chance(35);
+    let nv = if is_enum { d.range(1, 3) } else { 1 };
+    let mut gu = GenUse::default();
+    let mut variants = vec![];
+    let vnames = ["V0", "V1", "V2"];
+    let bt_slot = if nightly { d.pick(nv) } else { usize::MAX };
+    for vi in 0..nv {
+        let layout = draw_layout(d, allow_bt, vi == bt_slot, is_enum, &mut excluded);
+        let m = model(&layout);
+        let tys: Vec<FieldTy> = (0..layout.fields.len()).map(|j| field_ty(d, &layout, &m, vi, j, generic, &mut gu)).collect();
+        variants.push(Variant { name: vnames[vi].to_string(), layout, tys, unit_form: d.pick(3) });
+    }
+    let order = d.pick(6);
+    let gens = generics_text(gu, order);
+    let mut labels: Vec<String> = vec![if is_enum { "kind=enum".into() } else { "kind=struct".into() }];
+    if nightly {
+        labels.push("nightly_shard".into());
+    }
+    if !gens.0.is_empty() {
+        labels.push("generic".into());
+        if gu.e {
+            labels.push("generic_source_type".into());
+        }
+        if gu.p {
+            labels.push("generic_non_source_param".into());
+        }
+        if gu.n {
+            labels.push("const_generic".into());
+        }
+        if gu.a {
+            labels.push("lifetime_generic".into());
+        }
+    }
+    if variants.iter().any(|v| v.tys.iter().any(|t| t.boxed_dyn)) {
+        labels.push("boxed_dyn_error".into());
+    }
+
+    if negative {
+        // ambiguous selection: a second explicit `source` in one variant/struct: must be a compile error
+        let vi = d.pick(nv);
+        let v = &mut variants[vi];
+        v.layout.ignored = false;
+        while v.layout.fields.len() < 2 {
+            let j = v.layout.fields.len();
+            let name = if v.layout.named { OTHER[j].to_string() } else { String::new() };
+            v.layout.fields.push(Fl { name, attr: At::None, cls: Cls::Err });
+            v.tys.push(FieldTy { decl: format!("Er<{}>", 20 + j), val: String::new(), boxed_dyn: false });
+        }
+        let n = v.layout.fields.len();
+        let a = d.pick(n);
+        let mut b = d.pick(n - 1);
+        if b >= a {
+            b += 1;
+        }
+        for j in [a, b] {
+            v.layout.fields[j].attr = At::Source;
+            v.layout.fields[j].cls = Cls::Err;
+            if v.tys[j].decl.contains("Backtrace") || ["u64", "NotErr", "String", "P", "&'a u64"].contains(&v.tys[j].decl.as_str()) {
+                v.tys[j].decl = format!("Er<{}>", 30 + j);
+            }
+        }
+        // other explicit sources stay: still ambiguous; a stray backtrace attribute on a non-backtrace type would be
+        // rejected by rustc for another reason: neutralise
+        for (j, f) in v.layout.fields.iter_mut().enumerate() {
+            if j != a && j != b && matches!(f.attr, At::Backtrace | At::BtSource) {
+                f.attr = At::None;
+            }
+        }
+        let t = TypeDef { name: "Z".into(), is_enum, struct_ignored: false, variants };
+        // generics may have lost their only use: recompute from the declared field types
+        let mut gu2 = GenUse::default();
+        for v in &t.variants {
+            for ty in &v.tys {
+                match ty.decl.as_str() {
+                    "E" => gu2.e = true,
+                    "P" => gu2.p = true,
+                    "Er<N>" => gu2.n = true,
+                    "&'a u64" => gu2.a = true,
+                    _ => {}
+                }
+            }
+        }
+        let gens = generics_text(gu2, order);
+        let body = render_type(&t, &gens, true);
+        let item = render_item_only(&t, &gens);
+        let mut c = GenCase::new(body);
+        c.expect_compile = false;
+        c.runnable = false;
+        labels.push("negative_two_explicit_sources".into());
+        labels.push("expect=compile_error".into());
+        c.labels = labels;
+        c.nontrivial = true;
+        c.meta = json!({"nightly": nightly, "negative": true, "item": item, "excluded_draws": excluded});
+        return c;
+    }
+
+    let struct_ignored = !is_enum && variants[0].layout.ignored;
+    let t = TypeDef { name: "Z".into(), is_enum, struct_ignored, variants };
+
+    // metamorphic twin: the same type with one `ignore` removed from a field that is neither the candidate nor
+    // the backtrace: the answer must not change
+    let mut twin: Option<(TypeDef, usize, usize)> = None;
+    {
+        let mut cands = vec![];
+        for (vi, v) in t.variants.iter().enumerate() {
+            if v.layout.ignored {
+                continue;
+            }
+            for (j, f) in v.layout.fields.iter().enumerate() {
+                if f.attr != At::Ignore {
+                    continue;
+                }
+                let mut l2 = v.layout.clone();
+                l2.fields[j].attr = At::None;
+                let m2 = model(&l2);
+                if !valid(&l2, &m2, allow_bt) || m2.source == Sel::Field(j) || m2.backtrace == Some(j) || m2.source == Sel::Unspecified {
+                    continue;
+                }
+                if model(&v.layout).source == Sel::Unspecified {
+                    continue;
+                }
+                cands.push((vi, j));
+            }
+        }
+        if !cands.is_empty() && d.chance(70) {
+            let (vi, j) = cands[d.pick(cands.len())];
+            let mut vs = vec![];
+            for (k, v) in t.variants.iter().enumerate() {
+                let mut l = v.layout.clone();
+                if k == vi {
+                    l.fields[j].attr = At::None;
+                }
+                vs.push(Variant { name: v.name.clone(), layout: l, tys: v.tys.clone(), unit_form: v.unit_form });
+            }
+            twin = Some((TypeDef { name: "Z0".into(), is_enum, struct_ignored, variants: vs }, vi, j));
+        }
+    }
+
+    let mut body = render_type(&t, &gens, true);
+    let mut control = render_type(&t, &gens, false);
+    if let Some((t0, _, _)) = &twin {
+        body.push_str(&render_type(t0, &gens, true));
+        control.push_str(&render_type(t0, &gens, false));
+    }
+    body.push_str("pub fn run(o: &mut Out) {\n");
+    let mut meta_layouts = vec![];
+    let mut nontrivial = false;
+    let mut shift_compile = false;
+    let mut shift_backtrace = false;
+    let mut panic_any = false;
+    let mut add_layout = |t: &TypeDef, v: &Variant, tag: &str, body: &mut String, labels: &mut Vec<String>, count_labels: bool| {
+        let m = model(&v.layout);
+        if count_labels {
+            layout_labels(&v.layout, &m, t.is_enum, labels);
+        }
+        body.push_str(&render_probe(t, v, &gens.2, tag));
+        let what = format!("source() of {}{}", t.name, if t.is_enum { format!("::{}", v.name) } else { String::new() });
+        let expected = sel_text(m.source);
+        if m.source == Sel::Unspecified {
+            body.push_str(&format!("    o.put({what:?}, &w_{tag});\n"));
+        } else {
+            body.push_str(&format!("    o.eq({what:?}, {expected:?}, &w_{tag});\n"));
+        }
+        let mut pred = expected.clone();
+        if let Sel::Field(i) = m.source {
+            let p = shifted(&v.layout, i);
+            if p != i {
+                let tsel = &v.tys[i].decl;
+                let tp = &v.tys[p].decl;
+                let tp_generic = tp == "P" || tp == "E";
+                if t.is_enum {
+                    pred = format!("Some(field {p})");
+                    if v.layout.fields[p].cls != Cls::Err {
+                        shift_compile = true;
+                    }
+                } else if tsel == "E" || tp_generic {
+                    shift_compile = true;
+                }
+                let _ = tsel;
+            }
+        }
+        if predicts_panic(&v.layout) {
+            panic_any = true;
+        }
+        if let (true, Some(b)) = (t.is_enum, m.backtrace) {
+            // same defect, backtrace index: the variant pattern binds field `shifted(b)` as the backtrace
+            let p = shifted(&v.layout, b);
+            if p != b && m.source != Sel::Field(b) && v.layout.fields[p].cls != Cls::Bt {
+                shift_backtrace = true;
+            }
+        }
+        if v.layout.fields.len() >= 2 && v.layout.fields.iter().any(|f| f.attr != At::None) {
+            nontrivial = true;
+        }
+        meta_layouts.push(json!({"what": what, "expected": expected, "defect_predicts": pred, "tag": tag}));
+    };
+    for (vi, v) in t.variants.iter().enumerate() {
+        add_layout(&t, v, &format!("z{vi}"), &mut body, &mut labels, true);
+    }
+    if let Some((t0, tvi, _)) = &twin {
+        labels.push("metamorphic_ignore_pair".into());
+        for (vi, v) in t0.variants.iter().enumerate() {
+            if vi == *tvi {
+                add_layout(t0, v, &format!("t{vi}"), &mut body, &mut labels, false);
+                let what = format!("ignore-invariance of {}", if is_enum { format!("Z::{}", v.name) } else { "Z".to_string() });
+                body.push_str(&format!("    o.eq({what:?}, &w_t{vi}, &w_z{vi});\n"));
+            }
+        }
+    }
+    body.push_str("}\n");
+    let mut c = GenCase::new(body);
+    c.control = Some(control);
+    c.labels = labels;
+    c.nontrivial = nontrivial;
+    c.meta = json!({
+        "nightly": nightly,
+        "layouts": meta_layouts,
+        "shift_compile": shift_compile,
+        "shift_backtrace": shift_backtrace,
+        "panic": panic_any,
+        "excluded_draws": excluded,
+    });
     c
+}
+
+/// The bare item (attributes kept, std derive dropped) for the in-process confirmation of negative cases.
+fn render_item_only(t: &TypeDef, gens: &(String, String, String)) -> String {
+    let full = render_type(t, gens, true);
+    let item: Vec<&str> = full.lines().filter(|l| !l.starts_with("#[derive(") && !l.starts_with("impl")).collect();
+    item.join("\n")
+}
+
+fn build_stable(d: &mut Dice) -> GenCase {
+    build_with(d, false)
+}
+fn build_nightly(d: &mut Dice) -> GenCase {
+    build_with(d, true)
+}
+
+// ------------------------------------------------------------------------------------------------
+// fixed cases: the layouts named in the documentation, the statement and DESIGN.md
+
+fn fixed_case(body_items: &str, checks: &[(&str, &str, &str, &str)], labels: &[&str], nightly: bool, shift_compile: bool, panic: bool) -> GenCase {
+    // checks: (what, constructor expr, pattern => address list expr, expected)
+    let mut body = String::from(body_items);
+    body.push_str("pub fn run(o: &mut Out) {\n");
+    let mut metas = vec![];
+    for (k, (what, ctor, arm, expected)) in checks.iter().enumerate() {
+        body.push_str(&format!(
+            "    let w{k} = {{ let v = {ctor}; let got = dp(StdError::source(&v)); match &v {{ {arm}, #[allow(unreachable_patterns)] _ => String::from(\"<wrong variant>\") }} }};\n    o.eq({what:?}, {expected:?}, &w{k});\n"
+        ));
+        metas.push(json!({"what": what, "expected": expected, "defect_predicts": expected, "tag": format!("w{k}")}));
+    }
+    body.push_str("}\n");
+    let mut c = GenCase::new(body);
+    c.labels = labels.iter().map(|s| s.to_string()).collect();
+    c.labels.push("fixed_case".into());
+    c.meta = json!({"nightly": nightly, "layouts": metas, "shift_compile": shift_compile, "panic": panic});
+    c
+}
+
+const DISP: &str = "impl std::fmt::Display for Z { fn fmt(&self, f: &mut std::fmt::Formatter<'_>) -> std::fmt::Result { f.write_str(\"Z\") } }\n";
+
+fn fixed_stable() -> Vec<GenCase> {
+    let mut v = vec![];
+    // error.md examples
+    v.push(fixed_case(
+        &format!("#[derive(Debug, derive_more::Error)]\npub struct Z {{ source: Er<1> }}\n{DISP}"),
+        &[("source() of Z", "Z { source: Er(1) }", "Z { source: f0 } => which(got, &[(\"field 0\", ad(f0))])", "Some(field 0)")],
+        &["doc_example"],
+        false,
+        false,
+        false,
+    ));
+    v.push(fixed_case(
+        &format!("#[derive(Debug, derive_more::Error)]\npub struct Z(#[error(not(source))] u64);\n{DISP}"),
+        &[("source() of Z", "Z(1)", "Z(f0) => which(got, &[(\"field 0\", ad(f0))])", "None")],
+        &["doc_example"],
+        false,
+        false,
+        false,
+    ));
+    // DESIGN.md section 6 #8 (the statement's why_tests_cant example), in the form where the wrong field is an error too
+    let mut c = fixed_case(
+        &format!("#[derive(Debug, derive_more::Error)]\npub enum Z {{ V {{ #[error(ignore)] a: Er<1>, source: Er<2> }} }}\n{DISP}"),
+        &[("source() of Z::V", "Z::V { a: Er(1), source: Er(2) }", "Z::V { a: f0, source: f1 } => which(got, &[(\"field 0\", ad(f0)), (\"field 1\", ad(f1))])", "Some(field 1)")],
+        &["enum_ignored_before_selected", "ignored_before_selected"],
+        false,
+        false,
+        false,
+    );
+    c.meta["layouts"][0]["defect_predicts"] = json!("Some(field 0)");
+    v.push(c);
+    v
+}
+
+fn fixed_nightly() -> Vec<GenCase> {
+    let mut v = vec![];
+    v.push(fixed_case(
+        &format!("#[derive(Debug, derive_more::Error)]\npub struct Z(Er<1>, Backtrace);\n{DISP}"),
+        &[("source() of Z", "Z(Er(1), Backtrace::disabled())", "Z(f0, f1) => which(got, &[(\"field 0\", ad(f0)), (\"field 1\", ad(f1))])", "Some(field 0)")],
+        &["two_tuple"],
+        true,
+        false,
+        false,
+    ));
+    // DESIGN.md section 6 #9
+    v.push(fixed_case(
+        &format!("#[derive(Debug, derive_more::Error)]\npub struct Z(#[error(ignore)] u64, Backtrace);\n{DISP}"),
+        &[("source() of Z", "Z(1, Backtrace::disabled())", "Z(f0, f1) => which(got, &[(\"field 0\", ad(f0)), (\"field 1\", ad(f1))])", "None")],
+        &["two_tuple", "candidate_disqualified"],
+        true,
+        false,
+        true,
+    ));
+    v
+}
+
+// ------------------------------------------------------------------------------------------------
+// defect models
+
+fn classify(c: &GenCase, r: &CaseResult, f: &Finding) -> Option<String> {
+    if !c.expect_compile {
+        return None;
+    }
+    if !r.compiled {
+        if r.errors.is_empty() {
+            return None;
+        }
+        // "something is not an Error": the direct consequence of binding / bounding the wrong field, and the
+        // follow-up of an impl that was not generated
+        let not_error = |d: &super::proggen::Diag| {
+            matches!(d.code.as_deref(), Some("E0599") | Some("E0277")) && (d.message.contains("as_dyn_error") || d.message.contains("Error"))
+        };
+        let is_panic = |d: &super::proggen::Diag| d.message.contains("proc-macro derive panicked") && d.rendered.contains("index out of bounds");
+        if c.meta["panic"].as_bool() == Some(true) && r.errors.iter().any(is_panic) && r.errors.iter().all(|d| is_panic(d) || not_error(d)) {
+            return Some(SIG_PANIC.into());
+        }
+        // the wrong field bound as the backtrace: `provide_ref::<Backtrace>(&<not a Backtrace>)`
+        let bt_mismatch = |d: &super::proggen::Diag| {
+            c.meta["shift_backtrace"].as_bool() == Some(true) && d.code.as_deref() == Some("E0308") && d.rendered.contains("Backtrace")
+        };
+        if (c.meta["shift_compile"].as_bool() == Some(true) || c.meta["shift_backtrace"].as_bool() == Some(true))
+            && r.errors.iter().all(|d| (c.meta["shift_compile"].as_bool() == Some(true) && not_error(d)) || bt_mismatch(d))
+        {
+            return Some(SIG_SHIFT.into());
+        }
+        return None;
+    }
+    let what = f.summary.strip_prefix("run-time oracle failed: ")?;
+    let layouts = c.meta["layouts"].as_array()?;
+    let find = |w: &str| layouts.iter().find(|l| l["what"].as_str() == Some(w));
+    if let Some(rest) = what.strip_prefix("ignore-invariance of ") {
+        // expected = what the twin returned, observed = what the type with the extra `ignore` returned
+        let z = find(&format!("source() of {rest}"))?;
+        let z0 = find(&format!("source() of {}", rest.replacen('Z', "Z0", 1)))?;
+        let pz = z["defect_predicts"].as_str()?;
+        let pz0 = z0["defect_predicts"].as_str()?;
+        if f.observed == pz && f.expected == pz0 && (pz != z["expected"].as_str()? || pz0 != z0["expected"].as_str()?) {
+            return Some(SIG_SHIFT.into());
+        }
+        return None;
+    }
+    let l = find(what)?;
+    let pred = l["defect_predicts"].as_str()?;
+    let exp = l["expected"].as_str()?;
+    if pred != exp && f.observed == pred && f.expected == exp {
+        return Some(SIG_SHIFT.into());
+    }
+    None
+}
+
+// ------------------------------------------------------------------------------------------------
+// properties
+
+const RULE: &str = "structs and enums (1..3 variants) whose variants/bodies are field layouts: 0..3 named or positional fields x attribute in {none, source, not(source), backtrace, not(backtrace), ignore, (backtrace, source)} x name in {source, backtrace, other} x type in {distinct error types Er<K>, Box<dyn Error (+Send(+Sync))>, Box<Er<K>>, type parameter, const-generic Er<N>, Backtrace, non-error types incl. a type parameter instantiated with a non-Error type}, variant-/struct-level ignore, generic (type, const, lifetime parameters in varying order) and concrete; oracle: three-valued model (Some(i)/None/unspecified) of impl/doc/error.md and the statement vs. the data pointer of source()'s &dyn Error compared with the address of every field (boxed dyn: the boxed value); metamorphic twin without one non-candidate `ignore`; negative cases with two explicit sources must not compile; non-trivial = a layout with >= 2 fields and >= 1 attribute; distinct by program text";
+
+fn assumptions() -> Vec<String> {
+    vec![
+        "distinct non-zero-sized fields of one value have distinct addresses; a boxed value's address differs from every field address".into(),
+        "layouts the documentation leaves open (ignore on the backtrace of a two-field tuple) are compiled and counted (expect=unspecified) but their answer is not checked; a sole tuple field that is explicitly marked backtrace or a not(backtrace) Backtrace is not generated".into(),
+        "at most one field per layout can be taken for a backtrace (no backtrace ambiguity), and a field that is the backtrace is typed Backtrace unless it is also the source".into(),
+    ]
 }
 
 pub fn prop() -> DiceProp {
     DiceProp {
         crate_name: "gen_c09",
-        prelude: String::new(),
+        prelude: PRELUDE.to_string(),
         crate_attrs: String::new(),
         nightly: false,
         check_only: false,
-        ndice: 64,
-        quick: (10, 1),
-        thorough: (10, 1),
-        build,
-        fixed: no_fixed,
-        classify: no_classify,
-        rule: "stub".into(),
-        assumptions: vec![],
-        floors: vec![],
+        ndice: 200,
+        quick: (1100, 1),
+        thorough: (4000, 4),
+        build: build_stable,
+        fixed: fixed_stable,
+        classify,
+        rule: RULE.into(),
+        assumptions: assumptions(),
+        floors: vec![
+            ("kind=enum".into(), 0.3),
+            ("enum_ignored_before_selected".into(), 0.03),
+            ("ignored_before_selected".into(), 0.06),
+            ("ignore_on_other_field".into(), 0.1),
+            ("selected_by=attribute".into(), 0.1),
+            ("selected_by=name".into(), 0.08),
+            ("selected_by=sole_tuple_field".into(), 0.02),
+            ("candidate_disqualified".into(), 0.04),
+            ("explicit_overrides_name".into(), 0.005),
+            ("variant_ignored".into(), 0.02),
+            ("generic_source_type".into(), 0.05),
+            ("boxed_dyn_error".into(), 0.05),
+            ("metamorphic_ignore_pair".into(), 0.08),
+            ("negative_two_explicit_sources".into(), 0.03),
+            ("expect=none".into(), 0.2),
+        ],
         shards: 0,
     }
 }
 
-pub fn run(ctx: &super::core::Ctx) -> super::core::Report {
-    super::progprop::run(&prop(), ctx)
+pub fn prop_nightly() -> DiceProp {
+    DiceProp {
+        crate_name: "gen_c09n",
+        prelude: PRELUDE.to_string(),
+        crate_attrs: "#![feature(error_generic_member_access)]".into(),
+        nightly: true,
+        check_only: false,
+        ndice: 200,
+        quick: (500, 1),
+        thorough: (2500, 4),
+        build: build_nightly,
+        fixed: fixed_nightly,
+        classify,
+        rule: RULE.into(),
+        assumptions: assumptions(),
+        floors: vec![
+            ("has_backtrace".into(), 0.9),
+            ("selected_by=two_tuple_other_is_backtrace".into(), 0.04),
+            ("backtrace_from_source".into(), 0.03),
+            ("enum_ignored_before_selected".into(), 0.03),
+            ("candidate_disqualified".into(), 0.04),
+            ("type=Backtrace".into(), 0.5),
+            ("name=backtrace".into(), 0.15),
+            ("attr=backtrace".into(), 0.1),
+        ],
+        shards: 0,
+    }
 }
 
-pub fn replay(ctx: &super::core::Ctx, case: &serde_json::Value) -> super::core::Report {
-    super::progprop::replay(&prop(), ctx, case)
+fn merge(into: &mut Report, from: Report) {
+    into.evidence.merge(from.evidence);
+    into.violations.extend(from.violations);
+    into.infra_errors.extend(from.infra_errors);
+}
+
+// ------------------------------------------------------------------------------------------------
+// in-process sweep (E1): derive-level accept / reject over the complete layout space
+
+fn sweep_item(l: &Layout, as_enum: bool) -> String {
+    let parts: Vec<String> = l
+        .fields
+        .iter()
+        .enumerate()
+        .map(|(j, f)| {
+            let a = f.attr.text().map(|a| format!("#[error({a})] ")).unwrap_or_default();
+            let ty = match f.cls {
+                Cls::Bt => "Backtrace".to_string(),
+                _ => format!("Er<{}>", j + 1),
+            };
+            if l.named {
+                format!("{a}{}: {ty}", f.name)
+            } else {
+                format!("{a}{ty}")
+            }
+        })
+        .collect();
+    let body = if l.named { format!("{{ {} }}", parts.join(", ")) } else { format!("({})", parts.join(", ")) };
+    let ig = if l.ignored { "#[error(ignore)] " } else { "" };
+    if as_enum {
+        format!("enum Z {{ U, {ig}V{body} }}")
+    } else if l.named {
+        format!("{ig}struct Z {body}")
+    } else {
+        format!("{ig}struct Z{body};")
+    }
+}
+
+/// Judges one in-process expansion against the model; `None` = fine.
+fn sweep_judge(l: &Layout, src: &str) -> Option<Violation> {
+    let m = model(l);
+    if (m.bt_ambiguous || bt_candidates(l) > 1) && m.source != Sel::Ambiguous {
+        return None; // two backtrace candidates (by the documentation or by the type-based inference): not the subject of this property
+    }
+    let derive = dm::Derive::by_name("Error")?;
+    let out = match dm::expand_src(derive, src) {
+        Ok(o) => o,
+        Err(e) => {
+            return Some(Violation { sig: None, summary: format!("sweep item does not parse: {e}"), case: json!({"inproc_item": src}), expected: "parses".into(), observed: e });
+        }
+    };
+    let mk = |sig: Option<&str>, summary: String, expected: &str, observed: String| {
+        Some(Violation { sig: sig.map(|s| s.to_string()), summary, case: json!({"inproc_item": src}), expected: expected.into(), observed })
+    };
+    match (&out, m.source == Sel::Ambiguous && !l.ignored) {
+        (dm::Outcome::Err(_), true) => None,
+        (dm::Outcome::Ok(_), true) => mk(None, format!("two explicit `source` attributes are accepted by the derive: {src}"), "a diagnostic", "expansion succeeded".into()),
+        (dm::Outcome::Ok(_), false) => None,
+        (dm::Outcome::Err(e), false) => {
+            if m.source == Sel::Ambiguous {
+                None // ignored variant/struct with two explicit sources: either verdict is defensible
+            } else {
+                mk(None, format!("the derive rejects a layout the documentation supports: {src}"), "expansion succeeds", e.clone())
+            }
+        }
+        (dm::Outcome::Panic(p), _) => {
+            let known = predicts_panic(l) && p.msg.contains("index out of bounds") && p.file.ends_with("error.rs");
+            mk(
+                if known { Some(SIG_PANIC) } else { None },
+                format!("the derive panics ({}) on: {src}", p.msg),
+                if m.source == Sel::Ambiguous { "a diagnostic" } else { "expansion succeeds" },
+                format!("panic at {}:{}: {}", p.file, p.line, p.msg),
+            )
+        }
+    }
+}
+
+fn sweep(rep: &mut Report) {
+    let mut total = 0u64;
+    let mut ambiguous = 0u64;
+    let mut skipped_bt = 0u64;
+    let mut seen_sigs = std::collections::HashSet::new();
+    let per_field: Vec<(At, Cls)> = ALL_ATTRS.iter().flat_map(|a| [Cls::Err, Cls::Bt].into_iter().map(move |c| (*a, c))).collect();
+    let name_opts = ["source", "backtrace", ""];
+    for named in [false, true] {
+        for n in 0..=3usize {
+            // name sequences
+            let mut name_seqs: Vec<Vec<String>> = vec![vec![]];
+            for i in 0..n {
+                let mut next = vec![];
+                for s in &name_seqs {
+                    if named {
+                        for o in name_opts {
+                            if !o.is_empty() && s.iter().any(|x| x == o) {
+                                continue;
+                            }
+                            let mut t = s.clone();
+                            t.push(if o.is_empty() { OTHER[i].to_string() } else { o.to_string() });
+                            next.push(t);
+                        }
+                    } else {
+                        let mut t = s.clone();
+                        t.push(String::new());
+                        next.push(t);
+                    }
+                }
+                name_seqs = next;
+            }
+            let combos = per_field.len().pow(n as u32);
+            for names in &name_seqs {
+                for code in 0..combos {
+                    let mut c = code;
+                    let mut fields = vec![];
+                    for name in names.iter() {
+                        let (a, cls) = per_field[c % per_field.len()];
+                        c /= per_field.len();
+                        fields.push(Fl { name: name.clone(), attr: a, cls });
+                    }
+                    for ignored in [false, true] {
+                        if ignored && code % 7 != 0 {
+                            continue; // container-level ignore: a systematic 1/7 sample is plenty
+                        }
+                        let l = Layout { named, fields: fields.clone(), ignored };
+                        let m = model(&l);
+                        for as_enum in [false, true] {
+                            if ignored && !as_enum && fields.iter().any(|f| f.attr != At::None) {
+                                continue; // struct-level ignore combined with field attributes: undocumented
+                            }
+                            total += 1;
+                            if m.source == Sel::Ambiguous {
+                                ambiguous += 1;
+                            } else if m.bt_ambiguous || bt_candidates(&l) > 1 {
+                                skipped_bt += 1;
+                            }
+                            let src = sweep_item(&l, as_enum);
+                            if let Some(v) = sweep_judge(&l, &src) {
+                                // one report per distinct (signature, summary class)
+                                let key = format!("{:?}|{}", v.sig, v.summary.split(':').next().unwrap_or(""));
+                                if seen_sigs.insert(key) {
+                                    rep.violations.push(v);
+                                } else {
+                                    rep.evidence.add("inproc_sweep_further_failures", 1);
+                                }
+                            }
+                        }
+                    }
+                }
+            }
+        }
+    }
+    rep.evidence.eval(total);
+    rep.evidence.label_n("inproc_sweep_layouts", total);
+    rep.evidence.label_n("inproc_sweep_ambiguous_must_reject", ambiguous);
+    rep.evidence.label_n("inproc_sweep_backtrace_ambiguous_not_judged", skipped_bt);
+    rep.evidence.set(
+        "inproc_sweep",
+        json!({"layouts": total, "exhaustive": true, "space": "named/positional x 0..3 fields x 7 attributes x {error type, Backtrace type} x names {source, backtrace, other} x struct/enum variant (+ a 1/7 sample with container-level ignore)", "decides": "derive-level accept/reject only (two explicit sources => diagnostic; everything else expands without error or panic)"}),
+    );
+}
+
+/// Negative cases of the compiled shards are additionally confirmed in-process: the rejection must come from the
+/// derive (a diagnostic), not from an accident of the generated program.
+fn confirm_negatives_inproc(p: &DiceProp, ctx: &Ctx, rep: &mut Report) {
+    use proptest::strategy::ValueTree;
+    let strat = ProgProp::strategy(p, ctx);
+    let (n, _) = ProgProp::budget(p, ctx.tier);
+    let mut runner = ctx.runner(0);
+    let derive = match dm::Derive::by_name("Error") {
+        Some(d) => d,
+        None => return,
+    };
+    let mut confirmed = 0u64;
+    for t in draw(&mut runner, &strat, n) {
+        let c = t.current();
+        if c.expect_compile {
+            continue;
+        }
+        let Some(item) = c.meta["item"].as_str() else { continue };
+        match dm::expand_src(derive, item) {
+            Ok(dm::Outcome::Err(_)) => confirmed += 1,
+            Ok(o) => rep.violations.push(Violation {
+                sig: None,
+                summary: format!("two explicit `source` attributes are not rejected by the derive itself ({})", o.kind()),
+                case: json!({"inproc_item": item}),
+                expected: "a diagnostic from the derive".into(),
+                observed: o.kind().into(),
+            }),
+            Err(e) => rep.infra_errors.push(format!("negative item does not parse: {e}: {item}")),
+        }
+    }
+    rep.evidence.add("negatives_confirmed_inproc", confirmed);
+}
+
+pub fn run(ctx: &Ctx) -> Report {
+    let ps = prop();
+    let mut rep = super::progprop::run(&ps, ctx);
+    confirm_negatives_inproc(&ps, ctx, &mut rep);
+    let nightly_ok = std::process::Command::new("rustc").arg("+nightly").arg("--version").output().map(|o| o.status.success()).unwrap_or(false);
+    if nightly_ok {
+        let pn = prop_nightly();
+        let r2 = super::progprop::run(&pn, ctx);
+        merge(&mut rep, r2);
+        confirm_negatives_inproc(&pn, ctx, &mut rep);
+    } else {
+        rep.infra_errors.push("nightly toolchain not available: the backtrace shard of C09 cannot run".into());
+    }
+    sweep(&mut rep);
+    rep.evidence.explanation = "exhaustive only for the in-process derive-level accept/reject sweep (see inproc_sweep); which field source() returns is explored by seeded generation".into();
+    rep
+}
+
+pub fn replay(ctx: &Ctx, case: &Value) -> Report {
+    if let Some(src) = case["inproc_item"].as_str() {
+        let mut rep = Report::new(RULE);
+        rep.evidence.eval(1);
+        // rebuild the layout from the item text is not needed: judge by re-expanding and re-deriving the verdict
+        match syn::parse_str::<syn::DeriveInput>(src) {
+            Ok(_) => {
+                if let Some(l) = layout_of_item(src) {
+                    if let Some(v) = sweep_judge(&l, src) {
+                        rep.violations.push(v);
+                    }
+                } else {
+                    rep.infra_errors.push("cannot recover the layout of the replayed item".into());
+                }
+            }
+            Err(e) => rep.infra_errors.push(format!("replay item does not parse: {e}")),
+        }
+        return rep;
+    }
+    let nightly = case["meta"]["nightly"].as_bool().unwrap_or(false);
+    if nightly {
+        super::progprop::replay(&prop_nightly(), ctx, case)
+    } else {
+        super::progprop::replay(&prop(), ctx, case)
+    }
+}
+
+/// Recovers the layout (names, attributes, type classes) of the single struct / the variant `V` of an item text.
+fn layout_of_item(src: &str) -> Option<Layout> {
+    let di: syn::DeriveInput = syn::parse_str(src).ok()?;
+    let has_ignore = |attrs: &[syn::Attribute]| attrs.iter().any(|a| a.path().is_ident("error") && quote::ToTokens::to_token_stream(a).to_string().replace(' ', "").contains("(ignore)"));
+    let (fields, ignored) = match &di.data {
+        syn::Data::Struct(s) => (s.fields.clone(), has_ignore(&di.attrs)),
+        syn::Data::Enum(e) => {
+            // the variant with the most fields / attributes is the subject
+            let nsrc = |v: &syn::Variant| v.fields.iter().filter(|f| f.attrs.iter().any(|a| quote::ToTokens::to_token_stream(a).to_string().contains("source") && !quote::ToTokens::to_token_stream(a).to_string().contains("not"))).count();
+            let v = e.variants.iter().max_by_key(|v| nsrc(v).min(2) * 1000 + v.fields.len() * 10 + v.attrs.len())?;
+            (v.fields.clone(), has_ignore(&v.attrs))
+        }
+        _ => return None,
+    };
+    let named = matches!(fields, syn::Fields::Named(_));
+    let mut out = vec![];
+    for f in fields.iter() {
+        let mut attr = At::None;
+        for a in &f.attrs {
+            if a.path().is_ident("error") {
+                let t = quote::ToTokens::to_token_stream(&a.meta).to_string().replace(' ', "");
+                attr = match t.as_str() {
+                    "error(source)" => At::Source,
+                    "error(not(source))" => At::NotSource,
+                    "error(backtrace)" => At::Backtrace,
+                    "error(not(backtrace))" => At::NotBacktrace,
+                    "error(ignore)" => At::Ignore,
+                    "error(backtrace,source)" => At::BtSource,
+                    _ => return None,
+                };
+            }
+        }
+        let ty = quote::ToTokens::to_token_stream(&f.ty).to_string();
+        let cls = if ty.trim_end().ends_with("Backtrace") { Cls::Bt } else { Cls::Err };
+        out.push(Fl { name: f.ident.as_ref().map(|i| i.to_string()).unwrap_or_default(), attr, cls });
+    }
+    Some(Layout { named, fields: out, ignored })
 }
